@@ -621,7 +621,8 @@ class FA:
         if p == EXT:
             if desc not in self.summary.ext and len(self.summary.ext) < 12:
                 self.summary.ext.append(desc)
-            return False
+            # a modifies clause may name module-level state (`<global>`): a memo table or registry is then the function's own business
+            return bool(self.modifies) and EXT in self.modifies
         self.summary.mut.setdefault((p, d), desc)
         if self.modifies is None:
             return True
@@ -1484,8 +1485,10 @@ class FA:
             if b:
                 self.forget(st, b)
         for desc in S.ext:
-            self.effect(EXT, ANY, desc)
-            problems.append('callee %s mutates a global / an object of unknown origin (%s)' % (callee, desc))
+            if not self.effect(EXT, ANY, desc):
+                problems.append('callee %s mutates a global / an object of unknown origin (%s)' % (callee, desc))
+            else:
+                notes.append('callee %s writes module-level state (%s), allowed by the modifies clause' % (callee, desc))
         if S.mut or S.ext or problems:
             self.site(ks, e, not problems, '; '.join(problems or notes))
         # ---- captures
@@ -1943,6 +1946,8 @@ def check_function(an, modname, qual, modifies=None, consts=None, label=None, re
     if not stable:
         out.append(Res('%s.frame.summaries_stable' % label, False, 'the callee summaries did not stabilise in 12 passes', where, kind='undecided'))
     bad = [r for r in out if not r.ok and r.kind == 'frame']
+    if EXT in modifies:
+        fa.summary.ext = []          # allowed by the clause: not an effect the body has to answer for
     eff = ', '.join('%s(%s)' % (DEPTH[d], p) for (p, d) in sorted(fa.summary.mut)) or 'none'
     out.append(Res('%s.frame.body_respects_modifies' % label, not bad,
                    'modifies %s; effects inferred from the body: %s%s%s' % (show_modifies(modifies), eff, '; globals: %d site(s)' % len(fa.summary.ext) if fa.summary.ext else '',
